@@ -138,6 +138,19 @@ class World:
 # ---------------------------------------------------------------------------
 # The whole application in-process
 
+THREAD_ERRORS = []     # uncaught exceptions of threads started by the code under test
+
+
+def _thread_excepthook(args):
+	import traceback
+	tb = traceback.extract_tb(args.exc_traceback) if args.exc_traceback else []
+	where = next(("%s:%d" % (f.filename.rsplit("/", 1)[-1], f.lineno) for f in reversed(tb) if f.filename.startswith(common.REPO)), "?")
+	THREAD_ERRORS.append("%s: %s (at %s)" % (args.exc_type.__name__, args.exc_value, where))
+
+
+threading.excepthook = _thread_excepthook
+
+
 class AppWorld:
 	""" fake_trx.Application() instantiated for real, on vnet, with the clock
 	    generator's real thread running on a gated virtual clock. """
@@ -183,10 +196,15 @@ class AppWorld:
 	def run_ticks(self, n):
 		if not self.gen.running:
 			return True
-		ok = self.breaker.release(n)
+		ok = self.breaker.release(n, alive = self.worker_alive)
 		if ok and n > 0 and self.breaker.waits == 0:
 			raise common.HarnessError("virtual clock is not attached: the generator runs but never waits on the harness event")
 		return ok
+
+	def worker_alive(self):
+		""" Is the clock generator's worker thread still there?  (found by type, whatever it is called) """
+		ths = [v for v in vars(self.gen).values() if isinstance(v, threading.Thread)]
+		return any(t.is_alive() for t in ths) if ths else True
 
 	def shutdown(self):
 		try:
